@@ -28,6 +28,8 @@ type KeyKind[K any] struct {
 }
 
 var IntKeys = KeyKind[int]{"int", func(i int) int { return i }, func(k int) int { return k }}
+// IntZeroKeys shifts by one so that the Go zero value (0) is a legitimate key.
+var IntZeroKeys = KeyKind[int]{"int0", func(i int) int { return i - 1 }, func(k int) int { return k + 1 }}
 var StringKeys = KeyKind[string]{"string",
 	func(i int) string { return fmt.Sprintf("k%07d", i) },
 	func(k string) int {
@@ -59,6 +61,14 @@ var Orders = map[string]func(a, b int) int{
 		}
 		return sgn(a - b)
 	},
+}
+// Canon maps a logical key to a canonical representative of its equivalence class.
+var Canon = map[string]func(int) int{
+	"nat":       func(a int) int { return a },
+	"rev":       func(a int) int { return a },
+	"coarse4":   func(a int) int { return a / 4 },
+	"revcoarse": func(a int) int { return a / 3 },
+	"parity":    func(a int) int { return a },
 }
 var OrderNames = []string{"nat", "rev", "coarse4", "revcoarse", "parity"}
 var Flavors = []string{"less", "cmp", "cmpmag"}
@@ -154,9 +164,17 @@ type Config struct {
 // New builds the collection for cfg; calls counts every comparator invocation.
 func New[K any](kk KeyKind[K], cfg Config, calls *int) Coll[K] {
 	base := Orders[cfg.Order]
+	if calls == nil {
+		calls = new(int)
+		return newColl(kk, cfg, base, func() {})
+	}
+	return newColl(kk, cfg, base, func() { *calls++ })
+}
+
+func newColl[K any](kk KeyKind[K], cfg Config, base func(a, b int) int, count func()) Coll[K] {
 	switch cfg.Flavor {
 	case "less":
-		less := xsort.Less[K](func(a, b K) bool { *calls++; return base(kk.Un(a), kk.Un(b)) < 0 })
+		less := xsort.Less[K](func(a, b K) bool { count(); return base(kk.Un(a), kk.Un(b)) < 0 })
 		if cfg.Set {
 			return setColl[K]{tree.NewSet[K](less)}
 		}
@@ -164,7 +182,7 @@ func New[K any](kk KeyKind[K], cfg Config, calls *int) Coll[K] {
 	case "cmp", "cmpmag":
 		mag := cfg.Flavor == "cmpmag"
 		cmp := func(a, b K) int {
-			*calls++
+			count()
 			c := base(kk.Un(a), kk.Un(b))
 			if mag {
 				// only the sign may matter
